@@ -60,9 +60,15 @@ func GetAdaptedReDKG(originalDKG *types.ReDKG) (*types.ReDKG, error) {
 	for _, p := range originalDKG.Participants {
 		oldCommKeys[p.Name] = p.OldCommPubKey
 	}
+	// (the signature covers the data alone: a signed line of another kind posted again under the
+	// deal event's name is told by its content - it carries no deal)
 	signedBySender := func(m storage.Message) bool {
 		key, ok := oldCommKeys[m.SenderAddr]
-		return ok && len(key) == ed25519.PublicKeySize && m.Verify(key)
+		if !ok || len(key) != ed25519.PublicKeySize || !m.Verify(key) {
+			return false
+		}
+		var deal requests.DKGProposalDealConfirmationRequest
+		return json.Unmarshal(m.Data, &deal) == nil && len(deal.Deal) > 0
 	}
 	for _, m := range originalDKG.Messages {
 		if _, found := fixedSenders[m.SenderAddr]; !found && fsm.Event(m.Event) == dkg_proposal_fsm.EventDKGDealConfirmationReceived && signedBySender(m) {
